@@ -363,6 +363,7 @@ func c22HoldsShifted(q *c22Query, specs []c22ShardSpec) bool {
 
 var c22MinCount = map[string]int{}
 var c22Reported int
+var c22LooseLines int
 
 func c22Report(r *vkit.Run, st *c22Stack, ds *c22Dataset, q *c22Query, dsNo, qNo int, class, detail string, extraFeat map[string]string) {
 	w := c22Witness{Query: q.String(), Class: class, Diff: detail, Dataset: ds.Describe, DatasetNo: dsNo, QueryNo: qNo}
@@ -472,6 +473,12 @@ func c22Report(r *vkit.Run, st *c22Stack, ds *c22Dataset, q *c22Query, dsNo, qNo
 		}
 	}
 	r.Event("violation_class:"+class, 1)
+	if feat["observed"] == "" && r.Violations() >= 20 && c22LooseLines < 40 {
+		// vkit stops writing witnesses after 20; a violation that no diagnosis explained must
+		// still be visible in the log
+		c22LooseLines++
+		fmt.Printf("UNCLASSIFIED-VIOLATION class=%s dataset=%d query=%d\n  %s\n  %s\n", class, dsNo, qNo, mq.String(), detail)
+	}
 	r.Violation(class, feat, w)
 }
 
